@@ -86,14 +86,15 @@ package results
 
 // C18 ("the answer changes as soon as such a file is created"): a file that carries a missing-file diagnostic is
 // re-resolved on every file event, whichever spelling the unresolved module has -- every reference of it once.
+// (C08 as well: a stale missing-file diagnostic after the file was created is a difference from a fresh start - seed C08-rescan-only-on-textual-suffix-match)
 //@ func (*FileResult).isHasErrorNoFile
-//@   props C18
+//@   props C18 C08
 //@   assigns nothing
 //@   ensures[true-iff-a-missing-file-diagnostic-is-held] result == exists(j, 0, len(f.CheckErrVec), f.CheckErrVec[j].ErrType == common.CheckErrorNoFile)
 //@   loop 0 invariant rangeindex >= -1 && forall(j, 0, rangeindex + 1, f.CheckErrVec[j].ErrType != common.CheckErrorNoFile)
 //@ end
 //@ func (*FileResult).ReanalyseReferInfo
-//@   props C18
+//@   props C18 C08
 //@   requires fileIndexInfo != nil && forall(j, 0, len(f.ReferVec), f.ReferVec[j] != nil)
 //@   ensures[file-with-a-missing-reference-is-always-rescanned] old(exists(j, 0, len(f.CheckErrVec), f.CheckErrVec[j].ErrType == common.CheckErrorNoFile))
 //@        ==> hits("CheckReferFile#0") == old(len(f.ReferVec))
